@@ -76,6 +76,19 @@ def judge_acl(case) -> Verdict:
 
         _wrap_groups(acl, case["spans"])
         v.label("explicit-acegroups")
+    if case.get("late"):
+        # entries appended to the built (possibly grouped) ACL: they stay behind everything else
+        extra = []
+        for rec in case["late"]:
+            G.validate_rec(rec, source)
+            if G.rec_has_group(rec) or any(rec.get(s_) and rec[s_]["op"] == "neq" and len(rec[s_]["v"]) > 1 for s_ in ("sp", "dp")):
+                raise Invalid()
+            rec = dict(G.to_native(rec, source), seq=0)
+            acl.append(A.build_ace(rec, source, version=acl_case.get("version", "0"), port_nr=bool(acl_case.get("port_nr")),
+                                   protocol_nr=bool(acl_case.get("protocol_nr"))))  # created with the ACL's own switches
+            extra.append({"t": "ace", "rec": rec})
+        acl_case = dict(acl_case, items=list(acl_case["items"]) + extra)
+        v.label("appended-after-construction")
     before = acl.line
     detail = {"from": source, "to": target, "before": before, "kwargs": {k: acl_case.get(k) for k in ("port_nr", "protocol_nr", "group_by")}}
     spelled = case.get("alias") or target
@@ -176,6 +189,9 @@ def acl_case_st(draw, tier):
     if not acl["group_by"] and acl["items"] and draw(st.sampled_from([True, False, False])):
         n = len(acl["items"])
         case["spans"] = [[draw(st.integers(0, n)), draw(st.integers(1, 3))] for _ in range(draw(st.integers(1, 2)))]
+    if draw(st.sampled_from(range(4))) == 1:
+        case["late"] = [draw(G.ace_st(acl["platform"], kmax=2, groups=False, seq=False, noise=False, neq_multi=False))
+                        for _ in range(draw(st.integers(1, 2)))]
     return case
 
 
